@@ -171,7 +171,11 @@ func checkC09(c *ctx) {
 	}
 	// a merge in which deletions take a term's cardinality across a multiple of 1024: the chunk
 	// size recorded nowhere must be derivable from the merged bitmap (frozen parser on the output)
-	boundaryMerges(c, []int{pDicts, pDV}, "C09", 1)
+	if !boundaryMerges(c, []int{pDicts, pDV}, "C09", 1) {
+		return
+	}
+	// merges with 127..300 fields (field ids at the one-byte varint edge inside re-encoded locations)
+	wideMerges(c, []int{pDicts, pDV}, "C09")
 }
 
 // ---------- corpus generation (run once, against the pinned commit) ----------
